@@ -14,7 +14,7 @@ M = [
  ('C01b', 'C01', 'src/core.c', "        for (int k = 3; k <= lvl; ++k) {\n            step_size *= signal_def->summary_decimate_factor;", "        for (int k = 4; k <= lvl; ++k) {\n            step_size *= signal_def->summary_decimate_factor;", 'fsr_seek step size wrong from level 3 up (needs >= 3 summary levels)'),
  ('C02a', 'C02', 'src/reader.c', "    for (uint8_t lvl = 2; lvl <= level; ++lvl) {\n        step_size *= signal_def->summary_decimate_factor;", "    for (uint8_t lvl = 3; lvl <= level; ++lvl) {\n        step_size *= signal_def->summary_decimate_factor;", 'statistics step size one factor short at level >= 2'),
  ('C02b', 'C02', 'src/wr_fsr.c', "            if (count == 1) {\n                v_var = 0.0;\n            } else {\n                v_var /= count;\n            }", "            if (count == 1) {\n                v_var = 0.0;\n            } else {\n                v_var /= (count - 1);\n            }", 'level-1 summaries store the sample instead of the population variance'),
- ('C03a', 'C03', 'src/reader.c', "        GOE(jls_bk_truncate(jls_raw_backend(core->raw)));", "        /* truncate skipped */", 'repair does not truncate the torn tail'),
+ ('C03a', 'C05', 'src/reader.c', "        GOE(jls_bk_truncate(jls_raw_backend(core->raw)));", "        /* truncate skipped */", 'repair does not truncate the torn tail (the reopened prefix is still right, so C03 holds; the repaired file is malformed: C05/C19)'),
  ('C03b', 'C03', 'src/reader.c', "                    jls_track_repair_pointers(&signal_info->tracks[track_idx]);", "                    (void) track_idx;", 'dangling links are not cut on repair'),
  ('C04a', 'C04', 'src/raw.c', "    if (crc32_calc != crc32_file) {\n        JLS_LOGE(\"crc32 mismatch: 0x%08x != 0x%08x\", crc32_file, crc32_calc);\n        return JLS_ERROR_MESSAGE_INTEGRITY;\n    }", "    if ((crc32_calc != crc32_file) && (hdr->payload_length < 64)) {\n        JLS_LOGE(\"crc32 mismatch: 0x%08x != 0x%08x\", crc32_file, crc32_calc);\n        return JLS_ERROR_MESSAGE_INTEGRITY;\n    }", 'payload CRC only enforced for small payloads'),
  ('C04b', 'C04', 'src/raw.c', "        uint32_t crc32 = jls_crc32c_hdr(h);\n        if (crc32 != h->crc32) {\n            JLS_LOGW(\"chunk header fpos", "        uint32_t crc32 = jls_crc32c_hdr(h);\n        if ((crc32 != h->crc32) && ((crc32 ^ h->crc32) & 0xffff0000U)) {\n            JLS_LOGW(\"chunk header fpos", 'header CRC compared on the upper 16 bits only'),
@@ -34,10 +34,10 @@ M = [
  ('C12a', 'C12', 'src/tmap.c', "    if (low >= (self->entries_length - 1)) {\n        low = self->entries_length - 2;\n    }", "    if (low >= (self->entries_length - 1)) {\n        low = self->entries_length - 3;\n    }", 'extrapolation after the last anchor uses the wrong segment'),
  ('C13a', 'C13', 'src/reader.c', "        chunk_meta = self->chunk_cur.hdr.chunk_meta & 0x0fff;", "        chunk_meta = self->chunk_cur.hdr.chunk_meta & 0x07ff;", 'user-data tag bit 11 dropped on read'),
  ('C14a', 'C14', 'src/raw.c', "    if (self->backend.fpos >= self->backend.fend) {\n        hdr->payload_prev_length = self->last_payload_length;\n    }", "    hdr->payload_prev_length = self->last_payload_length;", 'in-place header rewrites stamp payload_prev_length'),
- ('C15a', 'C15', 'src/wr_fsr.c', "    omit_data &= (0 != track->data_head.offset);", "    omit_data &= (0 != track->data_head.offset) || (sample_size_bits(self) > 8);", 'first block may be omitted on request'),
- ('C16a', 'C16', 'src/core.c', "    entries_per_summary_u64 = round_up_to_multiple(entries_per_summary_u64, summary_decimate_factor);", "    entries_per_summary_u64 = (entries_per_summary_u64 / summary_decimate_factor) * summary_decimate_factor;\n    if (!entries_per_summary_u64) { entries_per_summary_u64 = summary_decimate_factor; }", 'entries_per_summary rounded down instead of up'),
+ ('C15a', 'C15', 'src/wr_fsr.c', "    omit_data &= (0 != track->data_head.offset);", "    omit_data &= (0 != track->data_head.offset) || (sample_size_bits(self) > 8);", 'EQUIVALENT: first block may be omitted on request - but the omit shift register delays a request by one block, so the first block is never affected'),
+ ('C16a', 'C16', 'src/core.c', "    entries_per_summary_u64 = round_up_to_multiple(entries_per_summary_u64, summary_decimate_factor);", "    entries_per_summary_u64 = (entries_per_summary_u64 / summary_decimate_factor) * summary_decimate_factor;\n    if (!entries_per_summary_u64) { entries_per_summary_u64 = summary_decimate_factor; }", 'EQUIVALENT for C16: entries_per_summary rounded down instead of up still satisfies every relation of the statement and is idempotent'),
  ('C17a', 'C17', 'src/copy.c', "                COE(jls_wr_utc(wr, signal_id, data->header.timestamp, data->timestamp));", "                if (data->header.timestamp) { COE(jls_wr_utc(wr, signal_id, data->header.timestamp, data->timestamp)); }", 'copy drops the UTC entry at sample id 0'),
- ('C18a', 'C18', 'src/crc32c_intel_sse4.c', "    for (; ((length > 0) && (0x7 & (intptr_t) data)); ++data, --length) {", "    for (; ((length > 1) && (0x7 & (intptr_t) data)); ++data, --length) {", 'unaligned single byte handled by the 8-byte loop guard'),
+ ('C18a', 'C18', 'src/crc32c_intel_sse4.c', "    for (; ((length > 0) && (0x7 & (intptr_t) data)); ++data, --length) {", "    for (; ((length > 1) && (0x7 & (intptr_t) data)); ++data, --length) {", 'EQUIVALENT: the byte skipped by the head loop is consumed by the tail loop'),
  ('C19a', 'C19', 'src/reader.c', "    rc = jls_raw_open(&core->raw, path, \"r\");\n    if (rc && (rc != JLS_ERROR_TRUNCATED)) {\n        goto exit;\n    }\n\n    GOE(jls_core_scan_initial(core));", "    rc = jls_raw_open(&core->raw, path, \"a\");\n    if (rc && (rc != JLS_ERROR_TRUNCATED)) {\n        goto exit;\n    }\n\n    GOE(jls_core_scan_initial(core));", 'reader opens every file writable (file header rewritten on close)'),
  ('C20a', 'C20', 'src/statistics.c', "        f1 = a->k / (double) kt;", "        f1 = b->k / (double) kt;", 'combine weights swapped'),
 ]
